@@ -96,16 +96,29 @@ def defer_recorded(F, rep, rule="DEFER-RECORDED"):
     (bin_op! stores the constraint on the two *operand* nodes only).  Where it answers `Ok` because an element is still
     Unknown it must leave the requirement behind on both element nodes, or the element's later refinement - a parameter
     unified at a call, a later statement - never re-checks the operator"""
+    from hir import pat_bindings
     fcc = F.fn(TC + "check_constraints")
     dispatch = {}
+    roles = {}          # (checker, Constraint variant) -> roles of the checker's TyID arguments: "node" | "payload"
+    cc_params = [b["hid"] for prm in fcc["params"] for b in pat_bindings(prm["pat"]) if prm["ty"].strip().split("::")[-1] == "TyID"]
     for m in matches_on(fn_body(fcc), TCM + "Constraint"):
         for arm, alt, vp in arm_alternatives(m):
             if vp:
+                bound = {b["hid"] for b in pat_bindings(alt)}
                 for c in nodes(arm["body"], "MethodCall"):
                     cal = callee(c) or ""
                     if cal.startswith(TC) and last(cal) in ACCEPT_EXPECT:
                         dispatch.setdefault(last(cal), set()).add(last(vp))
+                        r = []
+                        for x in c["args"]:
+                            h = tc.local_hid(x)
+                            if h in cc_params:
+                                r.append("node")
+                            elif h in bound:
+                                r.append("payload")
+                        roles.setdefault((last(cal), last(vp)), []).append(tuple(r))
     n = 0
+    nroles = [0]
     for name in ACCEPT_EXPECT:
         fn = F.fn(TC + name)
         rows = tc.accept_table(F, fn) or []
@@ -126,6 +139,27 @@ def defer_recorded(F, rep, rule="DEFER-RECORDED"):
                     payload = tc.local_hid(con["args"][0]) if con.get("k") == "Call" and con.get("args") else None
                     if node is not None and cn in dispatch.get(name, ()):
                         recorded[node] = payload
+                        # the deferred check must be the check that was postponed: same checker, same operand roles
+                        own = [b["hid"] for prm in fn["params"] for b in pat_bindings(prm["pat"])
+                               if prm["ty"].strip().split("::")[-1] == "TyID"]
+                        root = _representatives(fn)
+                        table, default = expand_rows(rows)
+                        symmetric = all(table.get((b_, a_), default) == v for (a_, b_), v in table.items())
+                        for r_ in roles.get((name, cn), ()):
+                            replay = [root.get(node, node) if x == "node" else root.get(payload, payload) for x in r_]
+                            same = replay == own or (symmetric and sorted(replay) == sorted(own))
+                            nm = {b["hid"]: b["name"] for prm in fn["params"] for b in pat_bindings(prm["pat"])}
+                            rep.ob(rule, "%s|unknown-arm|%s|replayed-as-postponed" % (name, cn), same,
+                                   ("Constraint::%s recorded by TypeChecker::%s is replayed by check_constraints as %s(%s), the "
+                                    "check that was postponed" % (cn, name, name, ", ".join(nm.get(h, "?") for h in replay)))
+                                   if same else
+                                   ("TypeChecker::%s(%s) postpones its check by recording Constraint::%s on `%s`, which "
+                                    "check_constraints replays as %s(%s): the operands have changed roles, so `(x, 2.0) / (1, 1)` "
+                                    "with `x` fixed later is checked as the other division (accepted or rejected wrongly, "
+                                    "depending on whether the operand types were known in time)" % (
+                                        name, ", ".join(nm.get(h, "?") for h in own), cn, nm.get(node, "?"), name,
+                                        ", ".join(nm.get(h, "?") for h in replay))), line_of(c))
+                            nroles[0] += 1
             mirrored = len(recorded) == 2 and all(recorded.get(v) == k for k, v in recorded.items())
             rep.ob(rule, "%s|unknown-arm" % name, mirrored,
                    ("TypeChecker::%s records Constraint::%s on both nodes before accepting a pair with an Unknown side" % (
@@ -135,6 +169,32 @@ def defer_recorded(F, rep, rule="DEFER-RECORDED"):
                     "it also recurses into tuple elements, whose nodes carry no constraint: `(a, 1) + (\"s\", 2)` with `a` "
                     "fixed to int by a later statement or call is accepted" % name), line_of(r["arm"]))
     rep.floor(rule, "element-wise checkers with an Unknown arm", n, 5)
+    rep.floor(rule, "postponed checks compared with their replay", nroles[0], 10)
+
+
+def _representatives(fn):
+    """local -> parameter it stands for: `let (a, b) = (self.find(a), self.find(b))` renames a node to its representative"""
+    from hir import pat_bindings, pat_strip
+    root = {}
+    for st in nodes(fn_body(fn), "Let"):
+        init = peel(st.get("init"))
+        pat = pat_strip(st["pat"])
+        pairs = []
+        if pat.get("k") == "Tuple" and isinstance(init, dict) and init.get("k") == "Tup" and len(init["es"]) == len(pat["pats"]):
+            pairs = list(zip(pat["pats"], init["es"]))
+        elif init is not None:
+            pairs = [(pat, init)]
+        for p_, e in pairs:
+            bs = pat_bindings(p_)
+            e = peel(e)
+            if len(bs) != 1 or not isinstance(e, dict):
+                continue
+            if e.get("k") == "MethodCall" and callee(e) == TC + "find" and e["args"]:
+                e = peel(e["args"][0])
+            h = tc.local_hid(e)
+            if h is not None:
+                root[bs[0]["hid"]] = root.get(h, h)
+    return root
 
 
 def expand_rows(rows):
